@@ -604,9 +604,6 @@ class Gen:
                 if dn in self.defs_of[i]:
                     continue
                 its = self.gen_items(i, "%s.%s" % (ns["name"], dn), nss, None)
-                if rng.random() < 0.7:
-                    # most inline defs use no free plain names (the _import_ns NameError would hide everything else)
-                    its = [it for it in its if it[0] in ("t", "i")]
                 ns["inline"].append((dn, its))
         page = []
         if rng.random() < 0.4:
@@ -1674,3 +1671,6 @@ def replay(ctx, data):
         return bool(agree)
     finally:
         sb.close()
+
+
+DRIVER_OPS = ["ns"]   # per-area driver executable(s) this check talks to (built before any worker is forked)
